@@ -496,7 +496,12 @@ def _families(thorough):
     bp = ('b', ('x', ('s', 1, 2), ('s', 3)))
     s_setpair = [bp, _desc(_den(bp)), _desc(_den(bp), True), ('b', ('x', ('s', 1), ('s', 3))), ('s', ('s', ('t', 1, 3)), ('s',))]
     long_t = [('t', 1, 1, 1, 1, 1), ('t', 1, 1, 1, 1, 2), ('t', 1, 1, 1, 2, 1), ('t', 2, 1, 1, 1, 1), ('t', 1, 2, 1, 1, 1), ('t', 1, 1, 2, 1, 1), ('t', 1, 1, 2, 1, 1)]
-    fam = {'ℤ×ℤ×ℤ×ℤ×ℤ': long_t, 'ℤ': ints, 'ℤ×ℤ': pairs, 'ℬ(ℤ)': s_int, 'ℬ(ℤ×ℤ)': s_pair, 'ℬℬ(ℤ)': s_set, 'ℬ(ℬ(ℤ)×ℤ)': s_mixed, 'ℬ(ℤ×ℬ(ℤ))': s_mixed2, 'ℬℬ(ℤ×ℤ)': s_setpair}
+    lo, hi = -2 ** 31, 2 ** 31 - 1
+    wide = [lo, -1, 0, 1, hi]
+    s_wide = [('s', lo, hi), ('s', hi, lo), ('s', lo, 0, hi), ('s', hi, 0, lo, 0), ('s', 1, lo), ('s', -1, hi), ('s', hi), ('s', lo)]
+    nested_t = ('x', ('x', A, B2), A)                  # a tuple-typed component to the left of an element-typed one
+    s_nested = [nested_t, _desc(_den(nested_t)), _desc(_den(nested_t), True), ('x', ('x', A, A), ('s', 1))]
+    fam = {'ℤ (32-bit extremes)': wide, 'ℬ(ℤ) (32-bit extremes)': s_wide, 'ℬ((ℤ×ℤ)×ℤ)': s_nested, 'ℤ×ℤ×ℤ×ℤ×ℤ': long_t, 'ℤ': ints, 'ℤ×ℤ': pairs, 'ℬ(ℤ)': s_int, 'ℬ(ℤ×ℤ)': s_pair, 'ℬℬ(ℤ)': s_set, 'ℬ(ℬ(ℤ)×ℤ)': s_mixed, 'ℬ(ℤ×ℬ(ℤ))': s_mixed2, 'ℬℬ(ℤ×ℤ)': s_setpair}
     if thorough:
         t3 = ('x', A, B2, C)
         fam['ℬ(ℤ×ℤ×ℤ)'] = [t3, _desc(_den(t3)), _desc(_den(t3), True), ('x', A, A, A), _desc(_den(('x', A, A, A)), True), ('x', ('s', 1), B2, C)]
@@ -504,8 +509,8 @@ def _families(thorough):
         fam['ℬℬ(ℤ)'] = s_set + [p3, _desc(_den(p3)), _desc(_den(p3), True)]
         bb = ('b', ('b', A))
         fam['ℬℬℬ(ℤ)'] = [bb, _desc(_den(bb)), _desc(_den(bb), True), ('b', ('b', ('s', 1))), ('s', ('b', A), _desc(_den(('b', A)), True)), ('s', ('b', A))]
-        xx = ('x', ('x', A, B2), A)
-        fam['ℬ((ℤ×ℤ)×ℤ)'] = [xx, _desc(_den(xx)), _desc(_den(xx), True), ('x', ('x', A, A), ('s', 1))]
+        xx = ('x', A, ('x', A, B2), A)
+        fam['ℬ(ℤ×(ℤ×ℤ)×ℤ)'] = [xx, _desc(_den(xx)), _desc(_den(xx), True), ('x', ('s', 2), ('x', A, A), ('s', 1))]
         big = ('x', ('s', 1, 2, 3), ('s', 1, 2, 3))
         fam['ℬ(ℤ×ℤ)'] = s_pair + [big, _desc(_den(big)), _desc(_den(big), True)]
     return fam
@@ -683,6 +688,7 @@ def _eval_sizes(ev, db, thorough, fail, tick):
 def _job(job):
     """one family (or the size arithmetic) evaluated in a worker process: (bad, counts, steps, broken)"""
     from engine.models.sdmodel import SDEval, Crash
+    from engine.evalmini import SignedOverflow
     db, (kind, tname, descs, thorough) = _JOBDB[0], job
     bad, counts = {}, {}
     where = {}
@@ -707,7 +713,7 @@ def _job(job):
                 _eval_sizes(ev, db, thorough, fail, tick)
         finally:
             steps = ev.it.steps
-    except Crash as e:
+    except (Crash, SignedOverflow) as e:
         fail('no-undefined-behaviour', 'a sequence of public calls on well-typed values of type %s reaches undefined behaviour: %s' % (tname, e), 'StructuredData::Compare')
     except OutOfFragment as e:
         if not bad:
@@ -721,11 +727,18 @@ _JOBDB = [None]
 def _denotation(db, rep):
     """r6: every public operation of StructuredData, interpreted from the library's own source on families of values that mix enumerated,
     power-set and product representations (and insertion orders with duplicates), against the mathematical definition."""
-    import multiprocessing
     thorough = rep.tier == 'thorough'
     r6 = rep.rule('r6', 'ALGEBRA-EVALUATED: equality, order, iteration, membership, cardinality and every set operation of the interpreted library agree with the mathematical value on mixed-representation families', 8)
-    fam = _families(thorough)
-    jobs = [('family', t, d, thorough) for t, d in fam.items()] + [('sizes', 'sizes', None, thorough)]
+    algebra_rule(db, rep, r6, _families(thorough), thorough)
+
+
+ALL_INSTANCES = ('iteration', 'cardinality', 'equality', 'order', 'nesting', 'Contains', 'Union', 'Intersect', 'Diff', 'SymDiff', 'IsSubsetOrEq', 'copies', 'Reduce', 'Projection', 'Debool')
+
+
+def algebra_rule(db, rep, rule, fam, thorough, instances=ALL_INSTANCES, sizes=True, note_prefix='r6'):
+    """evaluate the families (one worker process each) and report the named instances into `rule` (shared by C01)"""
+    import multiprocessing
+    jobs = [('family', t, d, thorough) for t, d in fam.items()] + ([('sizes', 'sizes', None, thorough)] if sizes else [])
     _JOBDB[0] = db
     try:
         with multiprocessing.get_context('fork').Pool(min(16, len(jobs))) as pool:
@@ -735,24 +748,24 @@ def _denotation(db, rep):
     bad, counts, steps = {}, {}, 0
     for (b_, c_, s_, br) in results:
         if br:
-            r6.broken(br)
+            rule.broken(br)
         for k_, v_ in b_.items():
             bad.setdefault(k_, v_)
         for k_, v_ in c_.items():
             counts[k_] = counts.get(k_, 0) + v_
         steps += s_
-    if r6.broken_reason:
+    if rule.broken_reason:
         return
-    rep.note('r6_evaluations', dict(counts))
-    rep.note('r6_interpreter_steps', steps)
-    rep.note('r6_families', {t: len(d) for t, d in fam.items()})
-    for inst in ('iteration', 'cardinality', 'equality', 'order', 'nesting', 'Contains', 'Union', 'Intersect', 'Diff', 'SymDiff', 'IsSubsetOrEq', 'copies', 'Reduce', 'Projection', 'Debool'):
+    rep.note(note_prefix + '_evaluations', {k_: v_ for k_, v_ in counts.items() if k_ in instances})
+    rep.note(note_prefix + '_interpreter_steps', steps)
+    rep.note(note_prefix + '_families', {t: len(d) for t, d in fam.items()})
+    for inst in instances:
         if inst in bad:
-            r6.violation(inst, bad[inst][0], bad[inst][1])
+            rule.violation(inst, bad[inst][0], bad[inst][1])
         elif counts.get(inst):
-            r6.ok(inst, '%d evaluated cases over %d type families agree with the definition' % (counts[inst], len(fam)))
+            rule.ok(inst, '%d evaluated cases over %d type families agree with the definition' % (counts[inst], len(fam)))
     if 'no-undefined-behaviour' in bad:
-        r6.violation('no-undefined-behaviour', bad['no-undefined-behaviour'][0], bad['no-undefined-behaviour'][1])
+        rule.violation('no-undefined-behaviour', bad['no-undefined-behaviour'][0], bad['no-undefined-behaviour'][1])
 
 
 def _cmp_name(ev, c):
